@@ -377,7 +377,13 @@ def explore_release(ctx, base, n):
             avail_b = None if short is None else max(0, headroom_kib * 1024 - short)
             # avail_gb is a float of GiB; keep it exactly representable
             avail_b = None if avail_b is None else (avail_b // 4) * 4
-            w.StorageNode.update(avail_gb=None if avail_b is None else avail_b / 2 ** 30).where(w.StorageNode.id == W.node.id).execute()
+            if avail_b is None:
+                w.StorageNode.update(avail_gb=None).where(w.StorageNode.id == W.node.id).execute()
+            else:
+                # the free space reaches the node record the way the daemon records it (UpdateableNode.update_free_space -> StorageNode.update_avail_gb),
+                # over an older, comfortable value: the shortfall is what the file system reports now, 0 bytes free included
+                w.StorageNode.update(avail_gb=1.0).where(w.StorageNode.id == W.node.id).execute()
+                w.StorageNode.get(id=W.node.id).update_avail_gb(avail_b)
             W.io.node = w.StorageNode.get(id=W.node.id)
             by_path = {str(c.path): st for (c, _, _, st) in rows.values()}
             W.io._lfs.hsm_state = lambda p: enum[by_path.get(str(p), "missing")]
@@ -391,7 +397,8 @@ def explore_release(ctx, base, n):
             cands = [rows[i] for i in order]
             seen_avail = None if W.io.node.avail_gb is None else int(W.io.node.avail_gb * 2 ** 30)
             if seen_avail != avail_b:
-                raise RuntimeError(f"harness: avail_gb round trip {avail_b} -> {seen_avail}")
+                ctx.fail("C20:free-space-not-recorded", f"the file system reported {avail_b} bytes free; the node record says {seen_avail} (release_files computes the headroom shortfall from it)",
+                         {"family": "release", "headroom_kib": headroom_kib, "avail_bytes": avail_b, "recorded_avail_bytes": seen_avail})
             ctx.count("release_files")
             if got:
                 ctx.distinct_add(("release", repr((headroom_kib, avail_b, [(h, r, s, sizes[i]) for i, (c, h, r, s) in zip(order, cands)]))))
